@@ -68,6 +68,55 @@ def indirect_kind(ins):
     return ("unknown", None)
 
 
+def table_targets(prog, f, ins):
+    """targets of an indirect call whose callee is loaded from a CONSTANT global table of function pointers
+    (`static const fn_t table[] = {...}; table[i](...)`): list of function names, or None"""
+    v = strip_casts(getattr(ins, "callee_val", None))
+    if not (isinstance(v, Inst) and v.op == "load"):
+        return None
+    src = strip_casts(v.operands[0])
+    if not (isinstance(src, Inst) and src.op == "getelementptr"):
+        return None
+    base = strip_casts(src.operands[0])
+    if not isinstance(base, GlobalRef):
+        return None
+    g = prog.global_for(f, base.name)
+    iv = g.get("init_val") if g else None
+    if not (g and g.get("constant") and iv is not None and hasattr(iv, "elems")):
+        return None
+    names = []
+    for el in iv.elems:
+        el = strip_casts(el) if not hasattr(el, "name") else el
+        n = getattr(el, "name", None)
+        if n is None or n not in prog.funcs:
+            return None
+        names.append(n)
+    return names or None
+
+
+def indirect_targets(prog, f, ins, depth=0):
+    """library functions an indirect call may reach when that is decidable from the program text: a constant dispatch
+    table, or a function-pointer parameter of a unit-internal helper all of whose call sites pass library functions"""
+    t = table_targets(prog, f, ins)
+    if t:
+        return t
+    v = strip_casts(getattr(ins, "callee_val", None))
+    if isinstance(v, Arg) and f.internal and depth < 3:
+        out = []
+        sites = [(g, c) for g in prog.funcs.values() for c in g.calls(f.name)]
+        if not sites:
+            return None
+        for g, c in sites:
+            a = strip_casts(c.operands[v.i]) if v.i < len(c.operands) else None
+            n = getattr(a, "name", None)
+            if isinstance(a, FuncRef) and n in prog.funcs:
+                out.append(n)
+            else:
+                return None
+        return sorted(set(out))
+    return None
+
+
 class Effects:
     def __init__(self, prog, include_extra=True):
         self.prog = prog
@@ -225,6 +274,15 @@ class Effects:
         aroots = [self._vroots(name, a) for a in args]
         callee = ins.callee
         if callee is None:
+            tt_ = indirect_targets(self.prog, f, ins)
+            if tt_:
+                # a dispatch table of library functions: the union of the direct calls
+                rr_all = set()
+                for t_ in tt_:
+                    rr_all |= self._direct(f, ins, S, t_, aroots, addcontents, write)
+                if rr_all:
+                    setroots(ins, rr_all)
+                return
             kind, which = indirect_kind(ins)
             if kind == "alloc":
                 if which == "_cbor_malloc":
@@ -251,6 +309,38 @@ class Effects:
                 setroots(ins, [("unknown", "indirect")])
             return
         if callee in self.funcs:
+            rr = self._direct(f, ins, S, callee, aroots, addcontents, write)
+            if rr:
+                # a value returned from memory reachable from an argument
+                setroots(ins, rr)
+            return
+        # external
+        S["ext"].add(callee)
+        m = EXTERNAL_MODEL.get(callee)
+        if m is None:
+            # unknown external: conservatively writes through every argument
+            for ar in aroots:
+                write(ins, ar)
+            setroots(ins, [("unknown", callee)])
+            return
+        for i in m["writes"]:
+            if i < len(aroots):
+                write(ins, aroots[i])
+        rr = set()
+        for i in m["ret"]:
+            if i < len(aroots):
+                rr |= aroots[i]
+        if m.get("fresh"):
+            rr.add(("fresh", callee))
+        if "copies" in m:
+            s, d = m["copies"]
+            addcontents(aroots[d], self._deref(name, aroots[s]))
+        if rr:
+            setroots(ins, rr)
+
+    def _direct(self, f, ins, S, callee, aroots, addcontents, write):
+        """effects of a direct call of library function `callee` at `ins`; returns the roots of its result"""
+        if True:
             S["callees"].add(callee)
             T = self.summ[callee]
             if T["allocates"]:
@@ -284,33 +374,7 @@ class Effects:
                         for vv in vroots:
                             if vv[0] in ("param", "global", "fresh", "unknown"):
                                 S["stores"].add((tt, vv))
-            if rr:
-                # a value returned from memory reachable from an argument
-                setroots(ins, rr)
-            return
-        # external
-        S["ext"].add(callee)
-        m = EXTERNAL_MODEL.get(callee)
-        if m is None:
-            # unknown external: conservatively writes through every argument
-            for ar in aroots:
-                write(ins, ar)
-            setroots(ins, [("unknown", callee)])
-            return
-        for i in m["writes"]:
-            if i < len(aroots):
-                write(ins, aroots[i])
-        rr = set()
-        for i in m["ret"]:
-            if i < len(aroots):
-                rr |= aroots[i]
-        if m.get("fresh"):
-            rr.add(("fresh", callee))
-        if "copies" in m:
-            s, d = m["copies"]
-            addcontents(aroots[d], self._deref(name, aroots[s]))
-        if rr:
-            setroots(ins, rr)
+            return rr
 
     # -- queries
     def writes_through(self, fname, param_index):
